@@ -91,6 +91,27 @@ type c13Case struct {
 	// through the real argument parser first, spelled UPPER / lOWER-first / aLtErNaTiNg (a master
 	// replicates the name as the client typed it)
 	Spell int `json:"spelling,omitempty"`
+	// Pattern (commands with many keys, where a bit mask does not reach): which keys pass —
+	// "all", "none", "last", "first", "third" (every third fails), "high" (only keys from the 65th on)
+	Pattern string `json:"pattern,omitempty"`
+}
+
+func (c c13Case) passes(ki int) bool {
+	switch c.Pattern {
+	case "":
+		return ki < 62 && c.Mask&(1<<uint(ki)) != 0
+	case "all":
+		return true
+	case "last":
+		return ki == strings.Count(c.Shape, "K")-1
+	case "first":
+		return ki == 0
+	case "third":
+		return ki%3 != 2
+	case "high":
+		return ki >= 64
+	}
+	return false
 }
 
 func c13Spell(name string, how int) string {
@@ -128,9 +149,9 @@ func c13Run(c c13Case) string {
 	for i := 0; i < len(c.Shape); i++ {
 		if c.Shape[i] == 'K' {
 			nkeys++
-			pass := c.Mask&(1<<uint(ki)) != 0 || c.Cfg == "none"
+			pass := c.passes(ki) || c.Cfg == "none"
 			name := fmt.Sprintf("f%d", ki)
-			if c.Mask&(1<<uint(ki)) != 0 {
+			if c.passes(ki) {
 				name = fmt.Sprintf("p%d", ki)
 			}
 			if c.Empty == i+1 {
@@ -244,7 +265,7 @@ func TestVerif_C13(t *testing.T) {
 						if empty == 0 {
 							// every spelling of the command name, through the real argument parser
 							for spell := 1; spell <= 3; spell++ {
-								c := c13Case{name, shape, mask, cfg, 0, spell}
+								c := c13Case{Cmd: name, Shape: shape, Mask: mask, Cfg: cfg, Spell: spell}
 								o := c13Run(c)
 								n++
 								ev.Outcome(o)
@@ -252,7 +273,7 @@ func TestVerif_C13(t *testing.T) {
 								ev.State(ev.HashS(fmt.Sprint(c)))
 							}
 						}
-						c := c13Case{name, shape, mask, cfg, empty, 0}
+						c := c13Case{Cmd: name, Shape: shape, Mask: mask, Cfg: cfg, Empty: empty}
 						o := c13Run(c)
 						n++
 						ev.Outcome(o)
@@ -262,6 +283,41 @@ func TestVerif_C13(t *testing.T) {
 							ev.Sample(name, c)
 						}
 					}
+				}
+			}
+		}
+	}
+	// many keys in one command (beyond any machine-word bitmap): 63..66, 129 and 257 key groups
+	for _, name := range names {
+		spec, ok := c13Ref[name]
+		if !ok {
+			continue
+		}
+		base := c13Shapes(spec)
+		var unit, pre, post string
+		switch {
+		case spec.first == 1 && spec.last == -1 && spec.step == 1:
+			unit = "K"
+		case spec.first == 1 && spec.last == -2:
+			unit, post = "K", "v"
+		case spec.step == 2:
+			unit = "Kv"
+		case spec.first == 2:
+			unit, pre = "K", "v"
+		default:
+			_ = base
+			continue // fixed arity
+		}
+		for _, groups := range []int{63, 64, 65, 66, 129, 257} {
+			shape := pre + strings.Repeat(unit, groups) + post
+			for _, cfg := range []string{"white", "black"} {
+				for _, pat := range []string{"all", "none", "last", "first", "third", "high"} {
+					c := c13Case{Cmd: name, Shape: shape, Cfg: cfg, Pattern: pat}
+					o := c13Run(c)
+					n++
+					ev.Outcome(o)
+					ev.Nontrivial(ev.HashS(fmt.Sprint(c)))
+					ev.State(ev.HashS(fmt.Sprint(c)))
 				}
 			}
 		}
@@ -277,7 +333,7 @@ func TestVerif_C13(t *testing.T) {
 		}
 		if filtered || len(got) != 2 || string(got[0]) != "f0" || string(got[1]) != "f1" {
 			ev.Violate("C13|not-key-addressed-changed", fmt.Sprintf("command %s (not key-addressed) was changed or dropped by the key filter", name),
-				c13Case{name, "vv", 0, "white", 0, 0})
+				c13Case{Cmd: name, Shape: "vv", Cfg: "white"})
 		}
 	}
 	conf.Options.FilterKeyWhitelist = nil
@@ -285,7 +341,7 @@ func TestVerif_C13(t *testing.T) {
 	ev.Trans(n)
 	ev.Trace(n)
 	ev.Bound("commands", len(names))
-	ev.Bound("arities", "minimum .. minimum+3 key groups, every pass/fail mask, filter none/whitelist/blacklist")
+	ev.Bound("arities", "minimum .. minimum+3 key groups with every pass/fail mask; 63, 64, 65, 66, 129 and 257 key groups with six pass patterns; filter none/whitelist/blacklist")
 }
 
 // TestVerif_C13Race: the rewrite must be re-entrant. One parser goroutine runs per source
